@@ -283,7 +283,7 @@ func TestC19_P_FixtureGenerators(t *testing.T) {
 				}
 			case "WrapContent":
 				exclusive := rapid.Bool().Draw(t, "exclusive")
-				wrapPath := rapid.SampledFrom([]string{"/a", "/a/b c/d", "x/y", "/é/00/..", "/~after", "!before/x", "/a/~after/!before"}).Draw(t, "wrapPath")
+				wrapPath := rapid.SampledFrom([]string{"/a", "/a/b c/d", "x/y", "/é/00/..", "/~after", "!before/x", "/a/~after/!before", "a//b", "/a///b/c", "//a/b//"}).Draw(t, "wrapPath")
 				opt = fmt.Sprintf("exclusive=%v path=%s", exclusive, wrapPath)
 				pathRule = false
 				content := testutil.GenerateFile(rec, ls, r, size%4096+1)
